@@ -765,32 +765,424 @@ Section Swap.
       + rewrite aget_adel_neq in H2 by auto. eauto.
   Qed.
 
-  Lemma swap_Inv : Inv (swap_state s sc i ref).
+  Lemma swap_InvF : InvF (swap_state s sc i ref).
+  Proof.
+    pose proof swap_ne as Hne. pose proof swap_sc_refs as Hsr. pose proof swap_sc_st as Hss.
+    assert (HF : InvF s) by apply HI.
+    unfold InvF, swap_state in *; sb. destruct HF as [F1 F2]. constructor.
+    + rewrite akeys_rekey. exact F1.
+    + intros k c. rewrite aget_rekey. destruct (aget (b_fb s) k) as [c0|] eqn:E; [|discriminate].
+      cbn [option_map]. intros E'; inv E'. destruct (F2 _ _ E) as [[j Hj] Hst].
+      destruct (N.eqb_spec c0 (sl_conn ref)) as [->|Hc0].
+      * rewrite aget_aset_eq, aget_adel_neq, aget_aset_eq by auto. rewrite Hst. eauto.
+      * assert (c0 <> sc) by congruence.
+        rewrite aget_aset_neq, !aget_adel_neq, aget_aset_neq by auto. eauto.
+  Qed.
+
+  Lemma swap_InvP : InvP (swap_state s sc i ref).
   Proof.
     pose proof swap_InvK as HK'.
-    pose proof swap_ne as Hne. pose proof swap_sc_refs as Hsr. pose proof swap_sc_st as Hss.
-    pose proof HI as HI'. destruct HI' as (_ & HF & HP & HC & HG & HS). repeat apply conj; [exact HK'| | | | |].
-    - (* InvF *)
-      unfold InvF, swap_state in *; sb. destruct HF as [F1 F2]. constructor.
-      + rewrite akeys_rekey. exact F1.
-      + intros k c. rewrite aget_rekey. destruct (aget (b_fb s) k) as [c0|] eqn:E; [|discriminate].
-        cbn. intros E'; inv E'. destruct (F2 _ _ E) as [[j Hj] Hst].
-        destruct (N.eqb_spec c0 (sl_conn ref)) as [->|Hc0].
-        * rewrite aget_aset_eq, aget_adel_neq, aget_aset_eq by auto. rewrite Hst. eauto.
-        * assert (c0 <> sc) by congruence.
-          rewrite aget_aset_neq, !aget_adel_neq, aget_aset_neq by auto. eauto.
-    - (* InvP *)
-      unfold InvP in *. replace (length (b_slots (swap_state s sc i ref))) with (length (b_slots s))
-        by (unfold swap_state; sb; rewrite upd_nth_length; reflexivity).
-      eapply invP_ready_equiv; [exact HP| |lia].
-      intros j. rewrite !In_ready_of_aget; [apply swap_ready_equiv| |apply (nd_scstates HK)].
-      apply (nd_scstates HK').
-    - (* InvC *)
-      unfold InvC, swap_state in *; sb. destruct HC as [C1 C2 C3 C4].
-      pose proof (nd_scstates HK) as ND.
-      constructor; [| | |exact C4]; rewrite count_st_swap by assumption;
-        destruct (aget (b_scstates s) (sl_conn ref)); cbn [cstate_eqb]; rewrite Z.add_0_r; assumption.
-    - apply InvG_some. unfold swap_state; sb. eapply InvG_cfg_refr; eauto. eapply aget_nonnil; eauto.
-    - unfold InvS, swap_state in *; sb. rewrite map_upd_nth_same by reflexivity. exact HS.
+    assert (HP : InvP s) by apply HI.
+    unfold InvP in *. replace (length (b_slots (swap_state s sc i ref))) with (length (b_slots s))
+      by (unfold swap_state; sb; rewrite upd_nth_length; reflexivity).
+    replace (b_picker (swap_state s sc i ref)) with (b_picker s) by reflexivity.
+    replace (b_published (swap_state s sc i ref)) with (b_published s) by reflexivity.
+    replace (b_state (swap_state s sc i ref)) with (b_state s) by reflexivity.
+    eapply invP_ready_equiv; [exact HP| |lia].
+    intros j. rewrite !In_ready_of_aget; [apply swap_ready_equiv| |apply (nd_scstates HK)].
+    apply (nd_scstates HK').
+  Qed.
+
+  Lemma swap_InvC : InvC (swap_state s sc i ref).
+  Proof.
+    pose proof swap_ne as Hne. pose proof swap_sc_st as Hss.
+    assert (HC : InvC s) by apply HI.
+    pose proof (nd_scstates HK) as ND.
+    unfold InvC, swap_state in *; sb. destruct HC as [C1 C2 C3 C4].
+    constructor; [| | |exact C4]; rewrite count_st_swap by assumption;
+      destruct (aget (b_scstates s) (sl_conn ref)); cbn [cstate_eqb]; rewrite Z.add_0_r; assumption.
+  Qed.
+
+  Lemma swap_InvS : InvS (swap_state s sc i ref).
+  Proof.
+    assert (HS : InvS s) by apply HI.
+    unfold InvS, swap_state in *; sb. rewrite map_upd_nth_same by reflexivity. exact HS.
+  Qed.
+
+  Lemma swap_Inv : Inv (swap_state s sc i ref).
+  Proof.
+    repeat apply conj.
+    - apply swap_InvK.
+    - apply swap_InvF.
+    - apply swap_InvP.
+    - apply swap_InvC.
+    - apply InvG_some. change (b_cfg (swap_state s sc i ref)) with (b_cfg s).
+      eapply InvG_cfg_refr; [apply HI|]. eapply aget_nonnil; eauto.
+    - apply swap_InvS.
   Qed.
 End Swap.
+
+(* --- the tail: state recording, fallback clean-up, counters, publication --- *)
+Definition cnt_upd (x : cstate) (n : Z) (a b : cstate) : Z :=
+  let n1 := if cstate_eqb a x then (n + (W64 - 1)) mod W64 else n in
+  if cstate_eqb b x then (n1 + 1) mod W64 else n1.
+
+Lemma recordTransition_eq s a b :
+  recordTransition s a b =
+  (set_counts s (cnt_upd Ready (b_nready s) a b) (cnt_upd Connecting (b_nconn s) a b)
+                (cnt_upd TransientFailure (b_ntf s) a b),
+   eval3 (cnt_upd Ready (b_nready s) a b) (cnt_upd Connecting (b_nconn s) a b)
+         (cnt_upd TransientFailure (b_ntf s) a b)).
+Proof. unfold recordTransition, bump, cnt_upd, eval3. destruct a, b; cbn [cstate_eqb]; reflexivity. Qed.
+
+Lemma cnt_upd_correct x n c c' a b :
+  n = c mod W64 ->
+  c' + (if cstate_eqb a x then 1 else 0) = c + (if cstate_eqb b x then 1 else 0) ->
+  cnt_upd x n a b = c' mod W64.
+Proof.
+  intros -> H. unfold cnt_upd. destruct (cstate_eqb a x), (cstate_eqb b x).
+  - rewrite mod_dec', mod_inc. f_equal. lia.
+  - rewrite mod_dec'. f_equal. lia.
+  - rewrite mod_inc. f_equal. lia.
+  - f_equal. lia.
+Qed.
+
+Lemma eval3_not_idle r cn tf : eval3 r cn tf <> Idle.
+Proof. unfold eval3. destruct (0 <? r); [discriminate|]. destruct (0 <? cn); discriminate. Qed.
+
+Definition regen_picker (agg : cstate) (rs order : list nat) : picker :=
+  if cstate_eqb agg TransientFailure then PErr true else PSnap (if is_perm order rs then order else rs).
+
+Lemma usc_fin_cases s5 o st oldS order :
+  let r := cnt_upd Ready (b_nready s5) oldS st in
+  let cn := cnt_upd Connecting (b_nconn s5) oldS st in
+  let tf := cnt_upd TransientFailure (b_ntf s5) oldS st in
+  let agg := eval3 r cn tf in
+  let s7 := set_state (set_counts s5 r cn tf) agg in
+  usc_fin s5 o st oldS order =
+  if pub_cond st oldS agg (b_state s5) then
+    let pk := regen_picker agg (ready_slots s5) order in
+    (set_published (set_picker s7 pk) (b_published s5 ++ [pk]), o ++ [OUpdateState agg pk])
+  else (s7, o).
+Proof.
+  cbv zeta. unfold usc_fin. rewrite recordTransition_eq. cbv zeta. sb.
+  destruct (pub_cond _ _ _ _); [|reflexivity].
+  unfold regeneratePicker, regen_picker. sb.
+  destruct (cstate_eqb _ TransientFailure); reflexivity.
+Qed.
+
+Lemma usc_s3_shutdown s1 sc :
+  usc_s3 s1 sc Shutdown =
+  set_scstates (set_screfs s1 (adel (b_screfs s1) sc)) (adel (aset (b_scstates s1) sc Shutdown) sc).
+Proof. reflexivity. Qed.
+
+Lemma usc_s3_other s1 sc st : st <> Shutdown -> usc_s3 s1 sc st = set_scstates s1 (aset (b_scstates s1) sc st).
+Proof. destruct st; try reflexivity. congruence. Qed.
+
+(* only the fallback table differs between s3 and s5 *)
+Lemma usc_s5_eq s3 sc st oldS : usc_s5 s3 sc st oldS = set_fb s3 (b_fb (usc_s5 s3 sc st oldS)).
+Proof.
+  unfold usc_s5. destruct (cstate_eqb oldS Ready && negb (cstate_eqb st oldS));
+    destruct (negb (cstate_eqb oldS Ready) && cstate_eqb st Ready); sb; try reflexivity.
+  all: destruct s3; reflexivity.
+Qed.
+
+Lemma usc_s5_fb s3 sc st oldS :
+  NoDup (akeys (b_fb s3)) ->
+  NoDup (akeys (b_fb (usc_s5 s3 sc st oldS))) /\
+  forall k c, aget (b_fb (usc_s5 s3 sc st oldS)) k = Some c ->
+              aget (b_fb s3) k = Some c /\ (oldS = Ready -> st <> Ready -> c <> sc).
+Proof.
+  intros ND. unfold usc_s5.
+  destruct (cstate_eqb_spec oldS Ready) as [->|Ho]; cbn [andb negb].
+  - rewrite cstate_eqb_sym. destruct (cstate_eqb_spec Ready st) as [<-|Hs]; cbn [negb]; sb.
+    + split; [auto|]. intros k c H. split; [auto|congruence].
+    + split; [apply NoDup_akeys_del_values, ND|]. intros k c H.
+      apply aget_del_values in H; auto. tauto.
+  - destruct (cstate_eqb st Ready); sb.
+    + split; [apply NoDup_akeys_filter, ND|]. intros k c H.
+      apply aget_filter_Some in H; auto. split; [tauto|congruence].
+    + split; [auto|]. intros k c H. split; [auto|congruence].
+Qed.
+
+Section Tail.
+  Variables (s1 : bal) (sc : N) (st oldS : cstate).
+  Hypothesis HI : Inv s1.
+  Hypothesis Hold : aget (b_scstates s1) sc = Some oldS.
+
+  Let HK : InvK s1 := proj1 HI.
+
+  Lemma tail_sc_in : In sc (akeys (b_scstates s1)).
+  Proof. eapply aget_In_keys, Hold. Qed.
+
+  Lemma tail_InvK3 : InvK (usc_s3 s1 sc st).
+  Proof.
+    pose proof tail_sc_in as Hin.
+    destruct (cstate_eqb_spec st Shutdown) as [->|Hne].
+    - rewrite usc_s3_shutdown. unfold InvK; sb.
+      destruct HK as [K1 K2 K3 K4 K5 K6 K7 K8 K9 K10 K11 K12 K13 K14]. constructor; auto.
+      + apply NoDup_akeys_adel, K1.
+      + apply NoDup_akeys_adel, NoDup_akeys_aset, K2.
+      + intros c. rewrite !In_akeys_adel, In_akeys_aset, K5. tauto.
+      + intros c i. rewrite aget_adel. destruct (N.eqb sc c); [discriminate|apply K6].
+    - rewrite usc_s3_other by auto. unfold InvK; sb. rewrite akeys_aset_present by auto. exact HK.
+  Qed.
+
+  Lemma tail_InvK5 : InvK (usc_s5 (usc_s3 s1 sc st) sc st oldS).
+  Proof. rewrite usc_s5_eq. exact tail_InvK3. Qed.
+
+  Lemma tail_st3 c : c <> sc -> aget (b_scstates (usc_s3 s1 sc st)) c = aget (b_scstates s1) c.
+  Proof.
+    intros Hc. destruct (cstate_eqb_spec st Shutdown) as [->|Hne].
+    - rewrite usc_s3_shutdown; sb. rewrite aget_adel_neq, aget_aset_neq; auto.
+    - rewrite usc_s3_other by auto; sb. rewrite aget_aset_neq; auto.
+  Qed.
+
+  Lemma tail_st3_sc : aget (b_scstates (usc_s3 s1 sc st)) sc = if cstate_eqb st Shutdown then None else Some st.
+  Proof.
+    destruct (cstate_eqb_spec st Shutdown) as [->|Hne].
+    - rewrite usc_s3_shutdown; sb. apply aget_adel_eq.
+    - rewrite usc_s3_other by auto; sb. apply aget_aset_eq.
+  Qed.
+
+  Lemma tail_refs3 c : c <> sc -> aget (b_screfs (usc_s3 s1 sc st)) c = aget (b_screfs s1) c.
+  Proof.
+    intros Hc. destruct (cstate_eqb_spec st Shutdown) as [->|Hne].
+    - rewrite usc_s3_shutdown; sb. rewrite aget_adel_neq; auto.
+    - rewrite usc_s3_other by auto; reflexivity.
+  Qed.
+
+  Lemma tail_refs3_sc : aget (b_screfs (usc_s3 s1 sc st)) sc = if cstate_eqb st Shutdown then None else aget (b_screfs s1) sc.
+  Proof.
+    destruct (cstate_eqb_spec st Shutdown) as [->|Hne].
+    - rewrite usc_s3_shutdown; sb. apply aget_adel_eq.
+    - rewrite usc_s3_other by auto; reflexivity.
+  Qed.
+
+  Lemma tail_InvF5 : InvF (usc_s5 (usc_s3 s1 sc st) sc st oldS).
+  Proof.
+    assert (HF : InvF s1) by apply HI. destruct HF as [F1 F2].
+    assert (Hfb3 : b_fb (usc_s3 s1 sc st) = b_fb s1) by (destruct st; reflexivity).
+    destruct (usc_s5_fb (usc_s3 s1 sc st) sc st oldS) as [N5 H5]; [rewrite Hfb3; exact F1|].
+    rewrite usc_s5_eq. unfold InvF; sb. constructor; [exact N5|].
+    intros k c H. destruct (H5 _ _ H) as [H6 H7]. rewrite Hfb3 in H6.
+    destruct (F2 _ _ H6) as [[i Hi] Hr].
+    destruct (N.eq_dec c sc) as [->|Hc].
+    - assert (E1 : oldS = Ready) by congruence.
+      assert (E2 : st = Ready) by (destruct (cstate_eqb_spec st Ready); [auto|exfalso; apply H7; auto]).
+      rewrite tail_refs3_sc, tail_st3_sc, E2. cbn [cstate_eqb]. eauto.
+    - rewrite tail_refs3, tail_st3 by auto. eauto.
+  Qed.
+
+  (* counting *)
+  Lemma tail_count x :
+    x <> Shutdown ->
+    count_st x (b_scstates (usc_s3 s1 sc st)) + (if cstate_eqb oldS x then 1 else 0) =
+    count_st x (b_scstates s1) + (if cstate_eqb st x then 1 else 0).
+  Proof.
+    intros Hx. pose proof (nd_scstates HK) as ND. unfold count_st.
+    pose proof (acount_aset_present (fun y => cstate_eqb y x) (b_scstates s1) sc st oldS ND Hold) as H1.
+    destruct (cstate_eqb_spec st Shutdown) as [->|Hne].
+    - rewrite usc_s3_shutdown; sb.
+      pose proof (acount_adel_present (fun y => cstate_eqb y x) (aset (b_scstates s1) sc Shutdown) sc Shutdown
+                    (NoDup_akeys_aset _ _ _ ND) (aget_aset_eq _ _ _)) as H2.
+      unfold b2n in *. destruct (cstate_eqb_spec Shutdown x); [congruence|].
+      destruct (cstate_eqb oldS x); lia.
+    - rewrite usc_s3_other by auto; sb. unfold b2n in *.
+      destruct (cstate_eqb oldS x), (cstate_eqb st x); lia.
+  Qed.
+
+  (* the ready set is unchanged when the connection's readiness is *)
+  Lemma tail_ready_same :
+    cstate_eqb st Ready = cstate_eqb oldS Ready ->
+    forall j, is_ready (b_scstates s1) (b_screfs s1) j <->
+              is_ready (b_scstates (usc_s3 s1 sc st)) (b_screfs (usc_s3 s1 sc st)) j.
+  Proof.
+    intros He j. unfold is_ready. split; intros [c [H1 H2]]; exists c.
+    - destruct (N.eq_dec c sc) as [->|Hc].
+      + assert (E1 : oldS = Ready) by congruence. rewrite E1, cstate_eqb_refl in He.
+        assert (E2 : st = Ready) by (destruct (cstate_eqb_spec st Ready); [auto|discriminate]).
+        rewrite tail_st3_sc, tail_refs3_sc, E2. cbn [cstate_eqb]. auto.
+      + rewrite tail_st3, tail_refs3 by auto. auto.
+    - destruct (N.eq_dec c sc) as [->|Hc].
+      + rewrite tail_st3_sc in H1. rewrite tail_refs3_sc in H2.
+        destruct (cstate_eqb st Shutdown); [discriminate|]. injection H1 as E2. rewrite E2, cstate_eqb_refl in He.
+        destruct (cstate_eqb_spec oldS Ready) as [E1|]; [|discriminate]. rewrite Hold, E1. auto.
+      + rewrite tail_st3, tail_refs3 in * by auto. auto.
+  Qed.
+End Tail.
+
+Lemma regen_picker_snap agg rs order refs :
+  NoDup rs -> regen_picker agg rs order = PSnap refs ->
+  agg <> TransientFailure /\ NoDup refs /\ forall i, In i refs <-> In i rs.
+Proof.
+  intros ND. unfold regen_picker. destruct (cstate_eqb_spec agg TransientFailure); [discriminate|].
+  intros E; inv E. split; [auto|]. destruct (is_perm order rs) eqn:Ep.
+  - apply is_perm_spec in Ep; auto.
+  - split; [auto|tauto].
+Qed.
+
+Lemma regen_picker_tf agg rs order :
+  (regen_picker agg rs order = PErr true <-> agg = TransientFailure) /\ regen_picker agg rs order <> PErr false.
+Proof.
+  unfold regen_picker. destruct (cstate_eqb_spec agg TransientFailure); split; try tauto; try discriminate.
+  split; [discriminate|tauto].
+Qed.
+
+Section Tail2.
+  Variables (s1 : bal) (sc : N) (st oldS : cstate) (order : list nat).
+  Hypothesis HI : Inv s1.
+  Hypothesis Hold : aget (b_scstates s1) sc = Some oldS.
+
+  Let r := cnt_upd Ready (b_nready s1) oldS st.
+  Let cn := cnt_upd Connecting (b_nconn s1) oldS st.
+  Let tf := cnt_upd TransientFailure (b_ntf s1) oldS st.
+  Let agg := eval3 r cn tf.
+  Let s3 := usc_s3 s1 sc st.
+
+  Lemma tail_InvC : invC r cn tf agg (b_scstates s3).
+  Proof.
+    assert (HC : InvC s1) by apply HI. destruct HC as [C1 C2 C3 C4].
+    constructor.
+    - eapply cnt_upd_correct; [exact C1|apply tail_count; auto; discriminate].
+    - eapply cnt_upd_correct; [exact C2|apply tail_count; auto; discriminate].
+    - eapply cnt_upd_correct; [exact C3|apply tail_count; auto; discriminate].
+    - reflexivity.
+  Qed.
+
+  Lemma tail_slots3 : b_slots s3 = b_slots s1.
+  Proof. unfold s3. destruct st; reflexivity. Qed.
+
+  Lemma tail_InvP_nopub :
+    pub_cond st oldS agg (b_state s1) = false ->
+    invP (b_picker s1) (b_published s1) agg (b_scstates s3) (b_screfs s3) (length (b_slots s1)).
+  Proof.
+    intros Hpc. unfold pub_cond in Hpc. apply orb_false_iff in Hpc. destruct Hpc as [Hp1 Hp2].
+    apply negb_false_iff, eqb_prop in Hp1, Hp2.
+    assert (HP : InvP s1) by apply HI. unfold InvP in HP.
+    pose proof (tail_InvK3 s1 sc st oldS HI Hold) as K3.
+    assert (HP' : invP (b_picker s1) (b_published s1) (b_state s1) (b_scstates s3) (b_screfs s3) (length (b_slots s1))).
+    { eapply invP_ready_equiv; [exact HP| |lia]. intros j.
+      rewrite !In_ready_of_aget; [eapply tail_ready_same; eauto|apply (nd_scstates K3)|apply (nd_scstates (proj1 HI))]. }
+    destruct HP' as [P1 P2 P3 P4 P5]. constructor; auto.
+    - intros E Ha. apply P3; auto. destruct (cstate_eqb_spec (b_state s1) TransientFailure); auto.
+      rewrite Ha in Hp2. cbn in Hp2. discriminate.
+    - intros E. destruct (P4 E) as [H1 [H2 H3]]. split; [|split; [auto|apply eval3_not_idle]].
+      rewrite H1. split; intros Ha.
+      + rewrite Ha in Hp2. cbn in Hp2. destruct (cstate_eqb_spec agg TransientFailure); [auto|discriminate].
+      + rewrite Ha in Hp2. cbn in Hp2. destruct (cstate_eqb_spec (b_state s1) TransientFailure); [auto|discriminate].
+  Qed.
+
+  Lemma tail_InvP_pub :
+    let pk := regen_picker agg (ready_of (b_scstates s3) (b_screfs s3)) order in
+    invP pk (b_published s1 ++ [pk]) agg (b_scstates s3) (b_screfs s3) (length (b_slots s1)).
+  Proof.
+    intros pk. assert (HP : InvP s1) by apply HI. unfold InvP in HP.
+    pose proof (tail_InvK3 s1 sc st oldS HI Hold) as K3. fold s3 in K3.
+    pose proof (NoDup_ready_slots s3 K3) as NDr. rewrite ready_slots_eq in NDr.
+    constructor.
+    - rewrite last_snoc. reflexivity.
+    - intros refs E. apply regen_picker_snap in E; auto. tauto.
+    - intros E. destruct (b_published s1); discriminate.
+    - intros _. destruct (regen_picker_tf agg (ready_of (b_scstates s3) (b_screfs s3)) order) as [H1 H2].
+      split; [exact H1|split; [exact H2|apply eval3_not_idle]].
+    - intros refs i Hin Hi. apply in_app_iff in Hin. destruct Hin as [Hin|[E|[]]].
+      + eapply (pub_valid HP); eauto.
+      + apply regen_picker_snap in E; auto. destruct E as [_ [_ E]]. apply E in Hi.
+        rewrite <- tail_slots3. apply (ready_slot_lt s3 K3). rewrite ready_slots_eq. exact Hi.
+  Qed.
+End Tail2.
+
+(* fields never touched by UpdateSubConnState *)
+Record usc_frame (s s' : bal) : Prop := mkUscFrame {
+  uf_cfg : b_cfg s' = b_cfg s;
+  uf_addrs : b_addrs s' = b_addrs s;
+  uf_rr : b_rr s' = b_rr s;
+  uf_undet : b_undet s' = b_undet s;
+  uf_picks : b_picks s' = b_picks s;
+  uf_now : b_now s' = b_now s;
+  uf_next : b_next s' = b_next s;
+  uf_fail : b_fail s' = b_fail s;
+  uf_gate : b_gate s' = b_gate s;
+  uf_parked : b_parked s' = b_parked s;
+  uf_nslots : length (b_slots s') = length (b_slots s)
+}.
+
+Lemma usc_frame_refl s : usc_frame s s.
+Proof. constructor; reflexivity. Qed.
+
+Lemma usc_frame_trans s1 s2 s3 : usc_frame s1 s2 -> usc_frame s2 s3 -> usc_frame s1 s3.
+Proof. intros [] []. constructor; congruence. Qed.
+
+Lemma swap_frame s sc i ref : usc_frame s (swap_state s sc i ref).
+Proof. constructor; try reflexivity. unfold swap_state; sb. apply upd_nth_length. Qed.
+
+Lemma usc_s5_frame s1 sc st oldS :
+  let s5 := usc_s5 (usc_s3 s1 sc st) sc st oldS in
+  b_nready s5 = b_nready s1 /\ b_nconn s5 = b_nconn s1 /\ b_ntf s5 = b_ntf s1 /\ b_state s5 = b_state s1 /\
+  b_scstates s5 = b_scstates (usc_s3 s1 sc st) /\ b_screfs s5 = b_screfs (usc_s3 s1 sc st) /\
+  b_picker s5 = b_picker s1 /\ b_published s5 = b_published s1 /\ b_slots s5 = b_slots s1 /\
+  b_picks s5 = b_picks s1 /\ b_parked s5 = b_parked s1 /\ b_cfg s5 = b_cfg s1 /\
+  b_aff s5 = b_aff s1 /\ b_refr s5 = b_refr s1 /\ usc_frame s1 s5.
+Proof.
+  cbv zeta. rewrite usc_s5_eq. destruct st; repeat split; reflexivity.
+Qed.
+
+Lemma usc_tail_frame s1 o1 sc st oldS order s' o' :
+  usc_tail s1 o1 sc st oldS order = (s', o') -> usc_frame s1 s'.
+Proof.
+  unfold usc_tail. rewrite usc_fin_cases. cbv zeta.
+  destruct (usc_s5_frame s1 sc st oldS) as (_&_&_&_&_&_&_&_&_&_&_&_&_&_&HF).
+  destruct (pub_cond _ _ _ _); intros E; inv E; destruct HF; constructor; assumption.
+Qed.
+
+Lemma usc_tail_Inv s1 o1 sc st oldS order s' o' :
+  Inv s1 -> aget (b_scstates s1) sc = Some oldS ->
+  usc_tail s1 o1 sc st oldS order = (s', o') -> Inv s'.
+Proof.
+  intros HI Hold. unfold usc_tail. rewrite usc_fin_cases. cbv zeta.
+  pose proof (tail_InvK5 s1 sc st oldS HI Hold) as K5.
+  pose proof (tail_InvF5 s1 sc st oldS HI Hold) as F5.
+  pose proof (tail_InvC s1 sc st oldS HI Hold) as C5.
+  pose proof (tail_InvP_pub s1 sc st oldS order HI Hold) as Ppub.
+  pose proof (tail_InvP_nopub s1 sc st oldS HI Hold) as Pnopub.
+  assert (HS : InvS s1) by apply HI.
+  assert (Hcfg : b_cfg s1 <> None) by (eapply InvG_cfg_scstates; [apply HI|eapply aget_nonnil; eauto]).
+  destruct (usc_s5_frame s1 sc st oldS) as (E1&E2&E3&E4&E5&E6&E7&E8&E9&E10&E11&E12&_).
+  set (s5 := usc_s5 (usc_s3 s1 sc st) sc st oldS) in *.
+  rewrite E1, E2, E3, E4, E8, ready_slots_eq, E5, E6.
+  cbv zeta in Ppub.
+  destruct (pub_cond _ _ _ _) eqn:Epc; intros E; inv E; repeat apply conj.
+  - exact K5.
+  - exact F5.
+  - unfold InvP; sb. rewrite E5, E6, E9. exact Ppub.
+  - unfold InvC; sb. rewrite E5. exact C5.
+  - apply InvG_some. sb. congruence.
+  - unfold InvS in *; sb. rewrite E9, E10, E11. destruct HS as [S1 S2 S3]. constructor; auto.
+    intros pi Hpi. rewrite app_length. apply S2 in Hpi. lia.
+  - exact K5.
+  - exact F5.
+  - unfold InvP; sb. rewrite E5, E6, E7, E8, E9. apply Pnopub. reflexivity.
+  - unfold InvC; sb. rewrite E5. exact C5.
+  - apply InvG_some. sb. congruence.
+  - unfold InvS in *; sb. rewrite E8, E9, E10, E11. exact HS.
+Qed.
+
+Lemma usc_after_Inv s1 o1 sc st order s' o' :
+  Inv s1 -> usc_after s1 o1 sc st order = (s', o') -> Inv s' /\ usc_frame s1 s'.
+Proof.
+  intros HI. unfold usc_after. destruct (aget (b_scstates s1) sc) as [oldS|] eqn:E.
+  - intros H. split; [eapply usc_tail_Inv; eauto|eapply usc_tail_frame; eauto].
+  - intros H; inv H. split; [auto|apply usc_frame_refl].
+Qed.
+
+Lemma UpdateSubConnState_Inv s sc st order s' o :
+  Inv s -> UpdateSubConnState s sc st order = (s', o) -> Inv s' /\ usc_frame s s'.
+Proof.
+  intros HI. rewrite UpdateSubConnState_cases.
+  destruct (aget (b_refr s) sc) as [i|] eqn:Er; [|apply usc_after_Inv, HI].
+  destruct (negb (cstate_eqb st Ready)); [intros E; inv E; split; [auto|apply usc_frame_refl]|].
+  destruct (get_slot s i) as [ref|] eqn:Es; [|apply usc_after_Inv, HI].
+  intros E. apply usc_after_Inv in E; [|apply swap_Inv; auto].
+  destruct E as [H1 H2]. split; [auto|]. eapply usc_frame_trans; [apply swap_frame|exact H2].
+Qed.
